@@ -63,6 +63,7 @@ def interp(rec, owner, script, env, thread_path=()):
     """Run a script. owner: string identifying the piece of user code (e.g. 'body:s1.t2'); env: fixture values visible."""
     tag = owner + ("" if not thread_path else "#" + ".".join(map(str, thread_path)))
     spawned = []
+    nspawn = 0
     try:
         for a in script:
             op = a[0]
@@ -82,12 +83,14 @@ def interp(rec, owner, script, env, thread_path=()):
             elif op == "use":
                 rec.record("use", tag, a[1], env.get(a[1], "<absent>"))
             elif op == "spawn":
-                idx = len(spawned)
-                th = rec.thread_class(target=interp, args=(rec, owner, a[1], env, thread_path + (idx,)))
-                spawned.append(th)
+                child = thread_path + (nspawn,)
+                nspawn += 1
+                th = rec.thread_class(target=interp, args=(rec, owner, a[1], env, child))
+                spawned.append((th, child))
+                rec.record("spawn", owner, list(child), getattr(th, "_cname", None))
                 th.start()
             elif op == "join":
-                _join(spawned)
+                _join(rec, owner, spawned)
                 spawned = []
             elif op == "raise":
                 rec.record("raise", tag, a[1])
@@ -95,14 +98,15 @@ def interp(rec, owner, script, env, thread_path=()):
             else:
                 raise ValueError(op)
     finally:
-        _join(spawned)
+        _join(rec, owner, spawned)
 
 
-def _join(threads):
-    for th in threads:
+def _join(rec, owner, threads):
+    for th, child in threads:
         if hasattr(th, "cjoin"):
             th.cjoin()
         th.join()
+        rec.record("join", owner, list(child))
 
 
 def make_func(argnames, impl, generator=False):
@@ -158,7 +162,10 @@ def build_suite(rec, sd, prefix=""):
     path = prefix + sd["name"]
     hooks = sd.get("hooks") or {}
     injected = sd.get("injected") or []
-    obj = type("Obj_" + sd["name"], (), {"inj_%s" % n: InjectedFixture(n) for n in injected})() if injected else None
+    # dir() lists attributes alphabetically: the attribute names are numbered so that the injected fixtures are
+    # registered in the order of the abstract description
+    inj_attr = {n: "inj_%03d" % k for k, n in enumerate(injected)}
+    obj = type("Obj_" + sd["name"], (), {inj_attr[n]: InjectedFixture(n) for n in injected})() if injected else None
     suite = Suite(obj, sd["name"], "desc of " + sd["name"])
     suite.rank = sd.get("rank", 0)
     suite.disabled = bool(sd.get("disabled"))
@@ -196,7 +203,7 @@ def build_suite(rec, sd, prefix=""):
             env = dict(kw)
             if _obj is not None:
                 for n in injected:
-                    env["inj:" + n] = getattr(_obj, "inj_%s" % n)
+                    env["inj:" + n] = getattr(_obj, inj_attr[n])
             rec.record("body_begin", _tpath)
             interp(rec, "body:" + _tpath, _td["body"], env)
             rec.record("body_end", _tpath)
